@@ -220,6 +220,9 @@ func (r *Run) runPath(st *State) {
 						r.UnknownObl++
 					}
 				}
+				if pe.kind == EndUnknown && r.Eng.Debug {
+					fmt.Printf("  !! unknown: %s\n", pe.msg)
+				}
 				if pe.kind == EndUnknown {
 					r.Eng.noteUnsupp(pe.msg)
 					pe.msg = pe.msg + " @" + st.stack()
@@ -348,6 +351,9 @@ func (r *Run) rawLoad(st *State, p Ptr, t types.Type) (Value, error) {
 	if err != nil {
 		return nil, unknownf("load: %v", err)
 	}
+	if v == nil {
+		return nil, unknownf("load of an undefined value at o%d%v (%s) — interpreter bug", p.ID, p.Path, o.Site)
+	}
 	return v, nil
 }
 
@@ -414,8 +420,18 @@ func (r *Run) unwind(st *State) error {
 			d := f.Defers[len(f.Defers)-1]
 			f.Defers = f.Defers[:len(f.Defers)-1]
 			f.Unwinding = true
+			if po, ok := st.Hook.(*PO); ok && st.Hook != nil && po.deferredIsSite(st, d) {
+				if _, merged := po.atSite(st, token.NoPos); merged {
+					return pathEnd{EndMerged, ""}
+				}
+			}
+			nf := len(st.Frames)
 			if err := r.callDeferred(st, d); err != nil {
 				return err
+			}
+			if len(st.Frames) == nf && st.top() == f {
+				// the deferred call was executed inline (intrinsic / builtin): keep unwinding
+				continue
 			}
 			return errUnwound
 		}
@@ -765,7 +781,11 @@ func (r *Run) exec(st *State, f *Frame, in ssa.Instruction) error {
 		if !ok {
 			return unknownf("store through %T", r.get(st, x.Addr))
 		}
-		if err := r.store(st, p, r.get(st, x.Val), x.Pos()); err != nil {
+		sv := r.get(st, x.Val)
+		if sv == nil {
+			return unknownf("store of an undefined register %s in %s — interpreter bug", x.Val.Name(), f.Fn.Name())
+		}
+		if err := r.store(st, p, sv, x.Pos()); err != nil {
 			return err
 		}
 		f.PC++
@@ -786,7 +806,7 @@ func (r *Run) exec(st *State, f *Frame, in ssa.Instruction) error {
 	case *ssa.FieldAddr:
 		p, ok := r.get(st, x.X).(Ptr)
 		if !ok {
-			return unknownf("fieldaddr of %T", r.get(st, x.X))
+			return unknownf("fieldaddr of %T (%s = %s; resume=%v)", r.get(st, x.X), x.Name(), x.String(), st.Resume != nil)
 		}
 		if p.ID == 0 {
 			return r.startPanic(st, "nil pointer dereference (field "+fieldName(x)+")", x.Pos())
@@ -907,6 +927,12 @@ func (r *Run) exec(st *State, f *Frame, in ssa.Instruction) error {
 		}
 		d := f.Defers[len(f.Defers)-1]
 		f.Defers = f.Defers[:len(f.Defers)-1]
+		if po, ok := st.Hook.(*PO); ok && st.Hook != nil && po.deferredIsSite(st, d) {
+			// a deferred sync/atomic call is an event of its own
+			if _, merged := po.atSite(st, x.Pos()); merged {
+				return pathEnd{EndMerged, ""}
+			}
+		}
 		return r.callDeferred(st, d)
 
 	case *ssa.Go:
